@@ -669,6 +669,7 @@ impl XferMon {
         let faf = *self.final_ack_faulted.get(&spec.client).unwrap_or(&false);
         let mut viol: Option<(String, String)> = None;
         let mut inconclusive = false;
+        let mut gave_up_at_budget = false;
         // negotiated values are bound per request: with several workers for one client they may be mixed up
         let only_worker_of_client = {
             let x = self.tr[&task].x;
@@ -727,6 +728,13 @@ impl XferMon {
             };
             if (rules.c04 || rules.c07) && viol.is_none() && !ended_ok && panic.is_none() && data_phase && only_worker_of_client && !t.error_seen && !t.send_failed && !t.disk_failed
                 && matches!(t.last_recv, LastRecv::Timeout | LastRecv::Err | LastRecv::Other)
+                && (kind == Kind::Download || t.fs_cleanup_seen)
+                && t.fails_in_window >= 6
+            {
+                gave_up_at_budget = true;
+            }
+            if (rules.c04 || rules.c07) && viol.is_none() && !ended_ok && panic.is_none() && data_phase && only_worker_of_client && !t.error_seen && !t.send_failed && !t.disk_failed
+                && matches!(t.last_recv, LastRecv::Timeout | LastRecv::Err | LastRecv::Other)
                 && t.fails_in_window < 6
                 && (kind == Kind::Download || t.fs_cleanup_seen)
             {
@@ -763,6 +771,9 @@ impl XferMon {
         }
         if inconclusive {
             self.inconclusive = true;
+        }
+        if gave_up_at_budget {
+            self.probe("gave_up_after_six_failed_receives");
         }
         viol.map(|(r, d)| self.vk(&r, kind, d))
     }
